@@ -1001,6 +1001,27 @@ func (req *Request) parseResult(resBytes []byte) (ResultSet, *ResultMetaData, er
 	return res, meta, err
 }
 
+// verifyResultWidth returns an error unless every row has one cell per requested column and stats expression.
+func (req *Request) verifyResultWidth(res ResultSet) error {
+	expected := len(req.Columns) + len(req.Stats)
+	for _, line := range strings.Split(req.FilterStr, "\n") {
+		if strings.HasPrefix(line, "Stats:") {
+			expected++
+		}
+	}
+	if expected == 0 {
+		// all columns of the table
+		return nil
+	}
+	for i, row := range res {
+		if len(row) != expected {
+			return fmt.Errorf("%s result set verification failed: len mismatch in row %d, expected %d columns and got %d", req.Table.String(), i, expected, len(row))
+		}
+	}
+
+	return nil
+}
+
 func (req *Request) parseWrappedJSONMeta(resBytes []byte, meta *ResultMetaData) ([]byte, error) {
 	var dataBytes []byte
 	err := jsonparser.ObjectEach(resBytes, func(keyBytes []byte, valueBytes []byte, _ jsonparser.ValueType, _ int) error {
